@@ -9,6 +9,14 @@ COMMON_NOTE = ("Trusted base: CPython 3.12, numpy/scipy, icontract (or vlib.atta
                "(independent of molgri, see DESIGN.md section 3.2/5). Decides only the executions produced; nothing is 'verified'.")
 
 CHECKS = {
+    "C06": dict(
+        technique="runtime monitors (postconditions on the PositionGrid getters in Cartesian mode) against an own Euclidean Voronoi oracle (Newell face areas, cone-sum volumes) cross-checked by qhull-free half-plane clipping",
+        text="Every volume / border / distance result of real Cartesian-mode PositionGrid objects is compared with the Euclidean Voronoi cells of the "
+             "harness' own point set (directions x radii + extra shell): volumes by cone sums, faces by Newell's formula on the ridge polygons, "
+             "distances |p_i-p_j|, pattern equal to the adjacency, symmetry, strict positivity. In every run sampled faces are recomputed by "
+             "clipping the bisector plane with all other half-spaces (no qhull). Grids whose direction set does not surround the origin have "
+             "unbounded cells: known finding F10 (KNOWN-FINDING line, exit 0), attributed only when every discrepancy involves an open cell.",
+        design_ref="5/C06"),
     "C04": dict(
         technique="runtime monitors (outcome monitors on the default folded getters of every 4-D grid object) against a polar-duality face-area oracle on the double cover (LP interior point + own 2-D hull), MC self-test of the oracle",
         text="Every adjacency / border / distance matrix of the real rotation-grid objects is judged pair by pair: the oracle computes, for ALL "
